@@ -520,7 +520,7 @@ class Ctx:
         return ok and ok2
 
     def correspond(self, domain, n, name=None, args=None, comparator=None, nontrivial=None, seed_offset=0,
-                   sample_n=3, on_mismatch=None, model=True):
+                   sample_n=3, on_mismatch=None, model=True, shrink=True, hit_props=None):
         """Generate n cases for `domain`, run real code and model, diff.  Returns the Run."""
         name = name or domain
         r = Run(self, name)
@@ -558,12 +558,13 @@ class Ctx:
                 def still(c):
                     mm, _, _, _ = run_single_case(self, name + "-shrink", domain, c, comparator)
                     return mm
-                small = shrink_ops(self, domain, ops, still, keep_prefix=self.prop.get("keep_prefix", {}).get(domain, 0)) if len(ops) <= 400 else ops
+                small = shrink_ops(self, domain, ops, still, keep_prefix=self.prop.get("keep_prefix", {}).get(domain, 0)) if (shrink and len(ops) <= 400) else ops
             except Exception as e:  # shrinking is best effort
                 small = ops
             mm, il, ml, shits = run_single_case(self, name + "-final", domain, small, comparator)
             detail.update(ops=small, ops_pretty=[pretty(l) for l in small], impl=il, model=ml)
-            for h in shits[:1]:  # the minimised case also fails the property monitor: best replay
+            props_ok = set(hit_props or [self.pid])
+            for h in [h for h in shits if h.get("prop") in props_ok][:1]:  # the minimised case also fails the property monitor: best replay
                 self.hits.insert(0, dict(cls=h.get("class", "?"), what="%s: %s" % (h.get("class"), json.dumps(h.get("detail"))[:300]),
                                          replay=dict(kind="impl-counterexample", domain=domain, seed=seed, case=idx, ops=small,
                                                      ops_pretty=[pretty(l) for l in small], detail=h.get("detail"), impl=il, model=ml,
@@ -573,7 +574,10 @@ class Ctx:
                 on_mismatch(r, bad, detail)
         else:
             self.oblige("correspondence:%s" % name, "correspondence", True, "%d cases agree" % ncases)
+        props_ok = set(hit_props or [self.pid])
         for h in r.hits:
+            if h.get("prop") not in props_ok:
+                continue
             ops = r.ops.get(str(h.get("case")), [])
             self.hit(h.get("class", "?"), "%s: %s" % (h.get("class"), json.dumps(h.get("detail"))[:300]),
                      dict(kind="impl-counterexample", domain=domain, seed=seed, case=h.get("case"), ops=ops,
